@@ -43,6 +43,27 @@ class Sw(enum.Enum):      # member names that YAML takes for booleans / null
 
 
 ENUMS = {"Color": Color, "Sw": Sw}
+
+
+# classes for subclass-typed arguments (the harness's table SUBCLASSES in tie/props/c01.py lists the same parameters)
+class Base:
+    def __init__(self, a: int = 1, name: Optional[str] = None):
+        self.a, self.name = a, name
+
+
+class Sub(Base):
+    def __init__(self, b: int = 2, flag: Optional[bool] = True, **kwargs):
+        super().__init__(**kwargs)
+        self.b, self.flag = b, flag
+
+
+class KW(Base):      # nothing jsonargparse can turn into init_args: settings travel as dict_kwargs
+    def __init__(self, **kwargs):
+        super().__init__()
+        self.kwargs = kwargs
+
+
+CLASSES = {"Base": Base}
 DATACLASSES = {}      # name -> dataclass, built per request from the harness's field table (payload["dataclasses"])
 
 
@@ -137,6 +158,8 @@ def ty(t):
         return ENUMS[t[1]]
     if k == "dc":
         return DATACLASSES[t[1]]
+    if k == "sub":
+        return CLASSES[t[1]]
     raise ValueError("unknown type %r" % (t,))
 
 
@@ -160,6 +183,8 @@ def untype(tp):
         return ["enum", tp.__name__]
     if isinstance(tp, type) and DATACLASSES.get(tp.__name__) is tp:
         return ["dc", tp.__name__]
+    if isinstance(tp, type) and CLASSES.get(tp.__name__) is tp:
+        return ["sub", tp.__name__]
     origin = typing.get_origin(tp)
     args = typing.get_args(tp)
     if origin is Union:
@@ -263,6 +288,26 @@ def load_alone(text):
         return {"err": type(e).__name__}
 
 
+def run_step(parser, step, scratch, n):
+    op = step["op"]
+    if op == "dump":                      # an earlier dump of the parser's own defaults
+        cfg = parser.parse_args([])
+        parser.dump(cfg, format=step.get("format", "yaml"), skip_none=step.get("skip_none", False),
+                    skip_default=step.get("skip_default", False))
+    elif op == "parse":                   # an earlier parse
+        with contextlib.suppress(jsonargparse.ArgumentError, SystemExit):
+            parser.parse_object(dec(step["obj"]))
+    elif op == "set_defaults":            # the declared defaults change
+        parser.set_defaults({k: dec(v) for k, v in step["values"]})
+    elif op == "default_config":          # a default config file appears
+        path = os.path.join(scratch, "dflt%d_%d.yaml" % (n, step.get("i", 0)))
+        with open(path, "w") as f:
+            f.write(ld.yaml_dump(dec(step["content"])))
+        parser.default_config_files = [path]
+    else:
+        raise ValueError("unknown history step %r" % (op,))
+
+
 def run_case(case, scratch):
     decl, variant = case["decl"], case["variant"]
     out = {"status": "ok"}
@@ -277,6 +322,12 @@ def run_case(case, scratch):
         parser = build_parser(decl)
     except Exception as e:
         return {"status": "build:" + err_kind(e), "msg": str(e)[:200]}
+    # ---- what happened to this parser object before (the answers must not depend on it)
+    try:
+        for step in case.get("history", []):
+            run_step(parser, step, scratch, case.get("n", 0))
+    except Exception as e:
+        return {"status": "history:" + err_kind(e), "msg": str(e)[:300]}
     # ---- the accepted configuration
     try:
         if "argv" in case:
@@ -310,12 +361,9 @@ def run_case(case, scratch):
         elif kind == "print_config":
             flags = variant.get("flags", "")
             buf = io.StringIO()
-            parser2 = build_parser(decl)
-            if fmt != "yaml":
-                parser2.parser_mode = "yaml"
             try:
                 with contextlib.redirect_stdout(buf):
-                    parser2.parse_args(list(case["argv"]) + ["--print_config" + ("=" + flags if flags else "")])
+                    parser.parse_args(list(case["argv"]) + ["--print_config" + ("=" + flags if flags else "")])
                 return {"status": "crash1:print_config did not exit"}
             except SystemExit as e:
                 if e.code not in (0, None):
